@@ -406,6 +406,43 @@ def run_alias(e, seed, variant):
     return {"label": e.label, "family": e.family, "msgs": sorted(set(msgs))}
 
 
+def run_stale(e, seed, k):
+    """C09 scenario for every operation: operand k is an intermediate W = 2 * P shared with a second graph; the second graph is
+    back-propagated first (which clears W), then the loss through the operation: InvalidBackprop, or exactly the recorded gradient."""
+    from mygrad.errors import InvalidBackprop
+    reset_global_state()
+    arrays = [values(s, seed, d, j) for j, (s, d) in enumerate(zip(e.shapes, e.domains))]
+
+    def build(shared):
+        xs = [mg.tensor(a.copy()) for a in arrays]
+        P = mg.tensor(arrays[k] / 2.0)
+        W = 2.0 * P
+        ops = list(xs)
+        ops[k] = W
+        out = e.fn(*ops)
+        return P, W, out
+    P0, W0, out0 = build(False)
+    g = np.random.RandomState(seed + 7).randn(*out0.shape) if out0.shape else np.asarray(np.random.RandomState(seed + 7).randn())
+    out0.backward(np.asarray(g, dtype=out0.dtype))
+    expected = None if P0.grad is None else P0.grad.copy()
+    P, W, out = build(True)
+    if out is W:
+        return {"label": e.label, "family": e.family, "outcome": "identity"}       # the operation returned its operand: there is no second graph
+    other = (W * 3.0).sum()
+    other.backward()
+    other_grad = P.grad.copy()
+    try:
+        out.backward(np.asarray(g, dtype=out.dtype))
+    except InvalidBackprop:
+        return {"label": e.label, "family": e.family, "outcome": "InvalidBackprop"}
+    except Exception as ex:
+        return {"label": e.label, "family": e.family, "outcome": "raised:" + type(ex).__name__, "msg": str(ex)[:120]}
+    got = P.grad
+    ok = (got is None and expected is None) or (got is not None and expected is not None and got.shape == expected.shape and np.allclose(got, expected, rtol=1e-9, atol=1e-12))
+    return {"label": e.label, "family": e.family, "outcome": "silent-correct" if ok else "silent-wrong",
+            "got": None if got is None else got.tolist(), "expected": None if expected is None else expected.tolist()}
+
+
 def main():
     payload = read_payload()
     E = catalog()
@@ -418,6 +455,8 @@ def main():
         try:
             if t["mode"] == "vjp":
                 out.append(run_vjp(e, t.get("seed", 0)))
+            elif t["mode"] == "stale":
+                out.append(run_stale(e, t.get("seed", 0), t.get("operand", 0) % len(e.shapes)))
             else:
                 out.append(run_alias(e, t.get("seed", 0), t.get("variant", 0)))
         except Exception:
